@@ -68,7 +68,7 @@ int main(int argc, char** argv)
                             r = (k == 3) ? D->isRecognized(std::string("a")) : D->isRecognized(k);
                         } else if (kd == 6) {
                             r = (k == 3) ? D->isCompleted(std::string("a")) : D->isCompleted(k);
-                            w = tab->claimed[k] ? (ready(k) ? 1 : 0) : -1;  // readiness observed right after the answer
+                            w = tab->has[k] ? (ready(k) ? 1 : 0) : -1;  // readiness observed right after the answer (unknown while the future is still being handed out)
                         } else {
                             if (!tab->claimed[k]) r = -3;  // nothing to wait for
                             else {
